@@ -15,6 +15,8 @@ from report import Check
 UNITS = ["src/Variogram/Vario.cpp", "src/Variogram/AVario.cpp", "src/Variogram/VMap.cpp", "src/Variogram/VCloud.cpp"]
 ACCUM = {"vario_order_add": (1, 2, 5), "Vario::_setResult": (0, 1, 3), "AVario::_setResult": (0, 1, 3),
          "VMap::_setResult": (0, 1, 3), "VCloud::_setResult": (0, 1, 3)}      # callee -> (iech1, iech2, ipas) argument positions
+C12V_ACCEPTED = {("Vario::_g", "value"): "half squared difference of a pair REPLAYED from the stored pair list (vario_order_get_indices): a pair is stored "
+                                           "only when both values are defined (same assumption as the pair gates of the replayed kernels)"}
 PM_ARGS = (2, 3, 4)                                                            # (this->*_evaluate)(db, nvar, iech1, iech2, ipas, ..)
 VALUE_READS = {"Vario::_getIVAR": 1, "AVario::_getIVAR": 1, "VMap::_getIVAR": 1, "VCloud::_getIVAR": 1}
 
@@ -160,12 +162,15 @@ def main(tier):
     # they are given for: no exchange of two same-named quantities in the forwarding factories
     import argswap
     pun = [os.path.join(REPO, "src/Variogram", x) for x in ("VarioParam.cpp", "DirParam.cpp") if os.path.exists(os.path.join(REPO, "src/Variogram", x))]
+    # ... and the factories of the pair checkers that receive them (direction, tolerance, bench, cylinder radius, codes, dates, faults)
+    gdir = os.path.join(REPO, "src/Geometry")
+    pun += [os.path.join(gdir, x) for x in sorted(os.listdir(gdir)) if x.startswith("BiTargetCheck") and x.endswith(".cpp")]
     pprog = Program().load_dir(extract(pun, "C12p-" + tier)) if tier != "thorough" else prog
     if tier != "thorough":
         dh, excluded = facts.extract_headers("C12h-" + tier)
         pprog.load_dir(dh)
         chk.units += [u for u in pprog.units if u not in chk.units]
-    argswap.rule(pprog, chk, "C12p", file_filter=("src/Variogram/",), floor_n=4)
+    argswap.rule(pprog, chk, "C12p", file_filter=("src/Variogram/", "src/Geometry/BiTargetCheck"), floor_n=4)
     # C12k: the rank argument of a per-sample Db accessor comes from a loop over ALL the samples (c05_skip.rank_loop_rule)
     import c05_skip
     c05_skip.rank_loop_rule(prog, chk, "C12k", ("src/Variogram/",), 20)
@@ -176,17 +181,26 @@ def main(tier):
     # C12v: every value of a variable read for a pair (_getIVAR) is tested for definedness before it enters the accumulated quantity
     nv = 0
     for f in sorted(prog.funcs, key=lambda x: (x.file, x.line)):
-        if f.cfg is None or not f.file.endswith("src/Variogram/AVario.cpp"):
+        if f.cfg is None or not f.file.endswith(("src/Variogram/AVario.cpp", "src/Variogram/Vario.cpp")):
             continue
         vals = {}
         for x in f.walk():
             if x["k"] == "VarDecl" and x.get("c") and x["c"][0] is not None and any(
                     y["k"] == "MCall" and (y.get("callee") or "").endswith("::_getIVAR") for y in walk(x["c"][0])):
                 vals[x["d"]] = x
+            # values declared beforehand and assigned from the reader (possibly through a conditional expression)
+            if x["k"] == "Assign" and x.get("op") == "=" and x["c"][0] is not None and x["c"][0]["k"] == "DeclRefExpr" and x["c"][0].get("dk") == "var" and \
+                    x["c"][1] is not None and any(y["k"] == "MCall" and (y.get("callee") or "").endswith("::_getIVAR") for y in walk(x["c"][1])):
+                node = dict(x)
+                node["n"] = x["c"][0]["n"]
+                vals.setdefault(x["c"][0]["d"], node)
         if not vals:
             continue
         gc = gates.GateCtx(f)
-        for d, decl in sorted(vals.items(), key=lambda kv: kv[1]["l"]):
+        for d, decl in sorted(vals.items(), key=lambda kv: kv[1].get("l") or 0):
+            if (f.name, decl["n"]) in C12V_ACCEPTED:
+                chk.assumptions.append("C12v %s/%s not judged: %s" % (f.name, decl["n"], C12V_ACCEPTED[(f.name, decl["n"])]))
+                continue
             uses = []
             for x in f.walk():
                 if x["k"] in ("BinOp", "Assign") and x.get("op") in ("+", "-", "*", "/", "+=", "-=", "*="):
